@@ -864,7 +864,9 @@ StrNames == <<"sub", "len", "byte", "rep">>
 (* heap: 1 = globals, 2 = main closure, 3 = coroutine table, 4 = string metatable, 5 = string table, 6 = debug table *)
 InitState(root) ==
     LET gkv == [i \in 1..Len(GlobalNames) |-> <<Str(Bytes(GlobalNames[i])), <<"bi", GlobalNames[i]>>>>]
-               \o <<<<Str(Bytes("coroutine")), <<"t", 3>>>>, <<Str(Bytes("string")), <<"t", 5>>>>, <<Str(Bytes("_G")), <<"t", 1>>>>, <<Str(Bytes("debug")), <<"t", 6>>>>>>
+               \o <<<<Str(Bytes("coroutine")), <<"t", 3>>>>, <<Str(Bytes("string")), <<"t", 5>>>>, <<Str(Bytes("_G")), <<"t", 1>>>>, <<Str(Bytes("debug")), <<"t", 6>>>>,
+                    \* ghuge: the host's name for "more than any run gets to count" (math.huge in the harness; a run is cut off long before 2^30 - 1)
+                    <<Str(Bytes("ghuge")), Num(1073741823)>>>>
         strkv == [i \in 1..Len(StrNames) |-> <<Str(Bytes(StrNames[i])), <<"bi", "str." \o StrNames[i]>>>>]
         dbgkv == [i \in 1..Len(DbgNames) |-> <<Str(Bytes(DbgNames[i])), <<"bi", "dbg." \o DbgNames[i]>>>>]
         cokv == [i \in 1..Len(CoNames) |-> <<Str(Bytes(CoNames[i])), <<"bi", "co." \o CoNames[i]>>>>]
